@@ -3,7 +3,7 @@
    fixes/C23-*.patch; Spec.spec_step is Substrate's AuthoritySet (authorities.rs, fork-tree).
    `prefix` = the pinned code, only used by the ..._prefix_refuted witnesses. *)
 From Coq Require Import NArith List Bool Arith.
-From C23 Require Import Model Spec Enum Proofs Bounded Local Reach Chain Forced OnePerFork Forks Forced2.
+From C23 Require Import Model Spec Enum Proofs Bounded Local Reach Chain Forced OnePerFork Forks Forced2 MixedChain.
 Import ListNotations.
 Local Open Scope N_scope.
 
@@ -319,6 +319,38 @@ Example C23_forced_histories_nonvacuous :
   option_map (fun q => length (s_forced q)) (run_spec t [] forced sinit evs) = Some 2%nat /\
   g_setid (fst (run_go fixed t [] forced ginit (evs ++ [Import 6]))) = 1 /\
   option_map s_setid (run_spec t [] forced sinit (evs ++ [Import 6])) = Some 1.
+Proof. vm_compute. repeat split; reflexivity. Qed.
+
+(* --- fourth round: histories that MIX scheduled and forced changes, by induction, on the single
+   chain of ANY length: any scheduled and forced announcements (a block may carry both: the forced
+   one wins), EVERY history of imports and finalisations of ANY length outside the guard of the
+   known finding; all four observers agree after every event.  Covered here and by no other
+   inductive theorem: a forced change enacted at import cancels every pending scheduled change
+   (both containers reset, Substrate: new ForkTree) unless a pending scheduled change it depends on
+   (effective number <= its best-finalized number, announced by an ancestor) is still there - then
+   both sides fail; a second forced change on the chain is refused; a finalisation enacts scheduled
+   changes and leaves the pending forced change (announced above the finalised block) alone. --- *)
+Theorem C23_refines_chain_mixed : forall n sched forced evs, sched_ok sched -> forced_ok forced ->
+  agree_run (chain n) sched forced [O] O ginit sinit evs.
+Proof. exact mixed_refines. Qed.
+Print Assumptions C23_refines_chain_mixed.
+
+(* non-vacuity: block 1 schedules a change (delay 3), block 2 announces a forced change (delay 1):
+   importing block 3 enacts the forced change and cancels the scheduled one; block 4 carries both
+   kinds, the forced one (delay 0) is enacted at once.  With a scheduled change the forced change
+   depends on still pending, the import fails on both sides. *)
+Example C23_chain_mixed_nonvacuous :
+  let t := chain 5 in
+  let sched := [(1%nat, mkpc 1 3 5 0); (4%nat, mkpc 4 0 8 0)] in
+  let forced := [(2%nat, mkpc 2 1 6 0); (4%nat, mkpc 4 0 7 3)] in
+  let evs := [Import 1; Import 2; Import 3; Import 4] in
+  snd (run_go fixed t sched forced ginit evs) = [ROk; ROk; ROk; ROk] /\
+  g_setid (fst (run_go fixed t sched forced ginit [Import 1; Import 2; Import 3])) = 1 /\
+  g_roots (fst (run_go fixed t sched forced ginit [Import 1; Import 2; Import 3])) = [] /\
+  g_auths (fst (run_go fixed t sched forced ginit evs)) = [(0, genesis_auth); (1, 6); (2, 7)] /\
+  option_map s_setid (run_spec t sched forced sinit evs) = Some 2 /\
+  snd (run_go fixed t [(1%nat, mkpc 1 0 5 0)] [(2%nat, mkpc 2 0 6 1)] ginit [Import 1; Import 2]) = [ROk; RErrForced] /\
+  run_spec t [(1%nat, mkpc 1 0 5 0)] [(2%nat, mkpc 2 0 6 1)] sinit [Import 1; Import 2] = None.
 Proof. vm_compute. repeat split; reflexivity. Qed.
 
 (* --- refinement, exhaustive small scope.  For EVERY well-formed block tree with at most 3
